@@ -180,7 +180,21 @@ class FcdWorld(au.CutWorld):
         raise DisciplineError("push_str(%r) into %r: only the unchanged prefix may be copied wholesale, and first" % (content, b))
 
     def buf_content(self, st, buf):
+        if isinstance(buf, Opq) and buf.kind == "buf" and buf.data in (("suffix-only",), ("empty",)):
+            return Str(("mapped-suffix",))  # (an empty buffer is the mapped form of an empty rest)
         return Str(("bufcontent",))
+
+    def concat(self, m, st, parts):
+        """[a, b, ..].concat(): the only assembly accepted is unchanged prefix ++ mapped suffix."""
+        tags = []
+        for p_ in parts:
+            v = deref_all(m, st, p_)
+            if isinstance(v, Opq) and v.kind == "buf":
+                v = self.buf_content(st, v)
+            tags.append(v.tag if isinstance(v, Str) else repr(v))
+        if tags == [("prefix",), ("mapped-suffix",)]:
+            return Opq("buf", ("prefix",))
+        raise DisciplineError("the result is assembled from %s: it must be the unchanged prefix s[..pos] followed by the mapped rest" % (tags,))
 
     def str_len(self, st, s):
         return Top("usize")
@@ -200,7 +214,11 @@ class FcdWorld(au.CutWorld):
         b = m.load(st, bufref.loc) if isinstance(bufref, Ref) else bufref
         if not (isinstance(b, Opq) and b.kind == "buf"):
             raise AnalysisError("push into %r" % (b,))
-        if b.data == ("empty",):
+        if b.data == ("empty",) and isinstance(bufref, Ref):
+            # a buffer that collects the mapped suffix on its own: fine as long as the result puts the unchanged
+            # prefix in front of it (checked when the result is assembled / returned)
+            m.store(st, bufref.loc, Opq("buf", ("suffix-only",)))
+        elif b.data == ("empty",):
             raise DisciplineError("a character is pushed before the unchanged prefix s[..pos] was copied")
         d = self.describe_char(chv)
         st.emit(("push",) + d)
@@ -222,6 +240,8 @@ def result_desc(prog):
             x = v.fields[0]
             if v.variant == 0:
                 if isinstance(x, Opq) and x.kind == "buf":
+                    if x.data == ("suffix-only",):
+                        return ("Ok", "mapped suffix without the unchanged prefix")
                     return ("Ok", "buffer")
                 if isinstance(x, Str):
                     return ("Ok", x.tag)
@@ -278,15 +298,59 @@ def analyse(prog, rep, rule, fn_key, world, args=None):
     return {"trig": set(world.trig or ()), "none_result": none_res, "none_events": none_events, "aut": aut, "body": b}
 
 
+def behavioural_states(aut, alphabet):
+    """Number of states of the loop automaton up to behavioural equivalence (same outputs and results for every
+    letter and at the end, successors equivalent): bookkeeping that the outputs do not depend on — a buffer
+    that is empty until the first push, a flag set once — does not count as state."""
+    states = sorted({t.target for t in list(aut.delta.values()) + [aut.initial] if t.target is not None})
+    if not states:
+        return 0
+    cls = {q: 0 for q in states}
+    for _ in range(len(states) + 1):
+        sig = {}
+        for q in states:
+            row = []
+            for a in list(alphabet) + [au.END]:
+                t = aut.delta.get((q, a))
+                if t is None:
+                    row.append(None)
+                else:
+                    row.append((tuple(e for e in t.events if e[0] in ("push", "pop")), repr(t.result), cls.get(t.target, -1)))
+            sig[q] = tuple(row)
+        ids = {}
+        new = {}
+        for q in states:
+            new[q] = ids.setdefault(sig[q], len(ids))
+        if new == cls:
+            break
+        cls = new
+    return len(set(cls.values()))
+
+
 def letter_outputs(aut, alphabet):
-    """For a single-state loop: letter -> tuple of push events; returns (per_letter, nstates, end_events, end_result)."""
+    """For a loop that is stateless up to behavioural equivalence: letter -> tuple of push events; returns
+    (per_letter, set of equivalent states, end_events, end_result)."""
     per = {}
     t0 = aut.initial
     if t0.target is None:
         raise AnalysisError("the mapping loop returns before reading a character")
     q0 = t0.target
+    eq = EquivStates({t.target for t in list(aut.delta.values()) + [aut.initial] if t.target is not None}) if behavioural_states(aut, alphabet) == 1 else q0
     for a in alphabet:
         t = aut.delta[(q0, a)]
-        per[a] = (tuple(e for e in t.events if e[0] in ("push", "pop")), t.target, t.result)
+        per[a] = (tuple(e for e in t.events if e[0] in ("push", "pop")), eq if (isinstance(eq, EquivStates) and t.target in eq.states) else t.target, t.result)
     tend = aut.delta[(q0, au.END)]
-    return per, q0, tuple(e for e in tend.events if e[0] in ("push", "pop")), tend.result
+    return per, eq, tuple(e for e in tend.events if e[0] in ("push", "pop")), tend.result
+
+
+class EquivStates:
+    """A set of behaviourally equivalent states; compares equal to itself only (callers test `target == q0`)."""
+
+    def __init__(self, states):
+        self.states = set(states)
+
+    def __eq__(self, other):
+        return other is self
+
+    def __hash__(self):
+        return id(self)
